@@ -52,6 +52,7 @@ FIXES = [
     ('24-C13-flegendre-floating-basis.patch', 'C13', 'C13.FLOAT-BASIS'),
     ('25-C08-bspline-floating-work-arrays.patch', 'C08', 'C08.FLOAT-WORK'),
     ('26-C04-decbounds-exact-upper-edge.patch', 'C04', 'C04.GRID'),
+    ('27-C09-maskpoints-empty-failure-list.patch', 'C09', 'C09.SCREEN'),
 ]
 
 
